@@ -138,11 +138,34 @@ def used_fields_check(ctx, ex):
     return n
 
 
+def typecheck_programs(ctx):
+    """'the generated impl itself always type-checks': rustc on shapes where the default bounds interact with the body - a parameter used
+    both by value and behind a reference (the where-clause `&'a T: Trait` must not be picked for the body's own `&T`), const parameters,
+    projections, unsized tails; every trait, tuple / named / enum placement"""
+    import elayer as E
+    rp = "\npub fn replay(_h: &str, _b: &[u8]) -> (bool, String) { (true, String::new()) }\n"
+    shapes = [("tuple", "pub struct X<'a, T>(pub T, pub &'a T);"), ("tuple_rev", "pub struct X<'a, T>(pub &'a T, pub T);"), ("named", "pub struct X<'a, T> { pub r: &'a T, pub v: T }"),
+              ("enum_split", "pub enum X<'a, T> { A(Option<T>), B(&'a Option<T>), C { c: &'a T, d: T } }"), ("wide", "pub struct X<'a, T, U, const N: usize>(pub [T; N], pub U, pub &'a [T; N]);"),
+              ("proj", "pub trait Fam { type Item; }\n#[derive_ex::derive_ex(TRAITS)]\npub struct X<'a, T: Fam>(pub T::Item, pub &'a T::Item, pub core::marker::PhantomData<T>);"),
+              ("unsized_tail", "pub struct X<'a, T: ?Sized>(pub &'a T, pub Box<T>);")]
+    lists = ["Clone", "Debug", "PartialEq, Eq, PartialOrd, Ord, Hash", "Clone, Debug, PartialEq, Eq, PartialOrd, Ord, Hash"]
+    progs = []
+    for (sn, item) in shapes:
+        for li, lst in enumerate(lists):
+            if ctx.quick and li in (0, 2) and sn not in ("tuple", "enum_split"):
+                continue
+            text = item.replace("TRAITS", lst) if "TRAITS" in item else "#[derive_ex::derive_ex(%s)]\n%s" % (lst, item)
+            progs.append(E.Prog("p_tc_%s_%d" % (sn, li), text + rp, [], {"describe": "type-checks: derive_ex(%s) %s" % (lst, item.replace("TRAITS", lst).replace("\n", " "))}))
+    return E.run_family(ctx, "C03", progs, None)
+
+
 def run(ctx):
     ex = Expander()
     n1, pos = visitor_check(ctx, ex, 2 if ctx.quick else 3, 150 if ctx.quick else 1500)
     n2 = used_fields_check(ctx, ex)
     ex.close()
+    est = typecheck_programs(ctx)
+    n2 += est["programs"]
     g = glayer.run_g(ctx, G_UNITS)
     ctx.assumptions += [
         "layer G: which fields push their type is proved for Copy/Clone/Debug builders and Default's field walk (all field/variant counts); for the comparison traits the per-field `field_used == (no key/by selected)` postcondition of build_*_expr is proved, the body builders' use of it is executed only (layer B)",
